@@ -99,6 +99,26 @@ func factsAt(fn *ssa.Function, b *ssa.BasicBlock) []Fact {
 	return out
 }
 
+// factsOnEdge lists the branch outcomes known when control passes from block from to its successor to: those that
+// edge-dominate from, plus the outcome of from's own branch when to is reached by exactly one of its arms.
+func factsOnEdge(fn *ssa.Function, from, to *ssa.BasicBlock) []Fact {
+	out := factsAt(fn, from)
+	if len(from.Instrs) == 0 {
+		return out
+	}
+	ifi, ok := from.Instrs[len(from.Instrs)-1].(*ssa.If)
+	if !ok || len(from.Succs) != 2 || from.Succs[0] == from.Succs[1] {
+		return out
+	}
+	atom, pol := condAtom(ifi.Cond)
+	if from.Succs[0] == to {
+		out = append(out, Fact{ifi, atom, pol})
+	} else if from.Succs[1] == to {
+		out = append(out, Fact{ifi, atom, !pol})
+	}
+	return out
+}
+
 // ---- backward slices ----
 
 // sliceOf returns the set of values v transitively depends on through operands; loads from local
